@@ -36,6 +36,10 @@ def parseOp (ws : List String) : Option Op :=
   | ["revoke", s] => some (.revoke (nat s))
   | ["bcw", s, v] => some (.bcw (nat s) (nat v))
   | ["gkm", s, _] => some (.fwrite (nat s))
+  -- handler level: KeySetWrite (a fabric-scoped write whose content the model does not track) and the
+  -- AddGroup command of the Groups cluster (the model's group table write)
+  | ["ksw", s, _, _] => some (.fwrite (nat s))
+  | ["addgrp", s, g, _] => some (.grp (nat s) (nat g))
   | ["nlabel", s, _] => some (.ext (nat s))
   | ["ulabel", s, _] => some (.ext (nat s))
   | ["bind", s, _] => some (.ext (nat s))
@@ -197,8 +201,8 @@ structure OSt where
   csr1 : Bool := false
   rootC : Bool := false
   nocC : Bool := false
-  /-- a factory reset ran and the node has not restarted yet (`Matter::factory_reset` leaves the
-  session table alone: the sessions of the wiped fabrics are not judged) -/
+  /-- a factory reset ran and the node has not restarted yet (state level only: the bindings /
+  subscriptions of the handler-level extension are not reset by `Matter::factory_reset`) -/
   wiped : Bool := false
   /-- handler-level extension: committed values by name (`B`, `UL`, `NL`, `K:<fab>`) -/
   cmtX : List (String × String) := []
@@ -255,6 +259,13 @@ def fabEntry (sec : String) (fab : Nat) : String :=
   match (items sec).find? (fun e => (e.splitOn ":").headD "" = toString fab) with
   | some e => ":".intercalate ((e.splitOn ":").drop 1)
   | none => "-"
+
+/-- the per-fabric sections of the extension that live in the fabric blob: (memory, store) - the group
+key map, the group table WITH the group names, the group key sets -/
+def fabSecs : List (String × String) := [("K", "KK"), ("G", "KG"), ("KS", "KKS")]
+
+/-- a committed-view key `<section>:<fab>` of one of them -/
+def isFabKey (k : String) : Bool := fabSecs.any (fun p => k.startsWith (p.1 ++ ":"))
 
 /-- fabric index of an entry `<fab>.<x>` -/
 def entryFab (e : String) : Nat := nat ((e.splitOn ".").headD "0")
@@ -336,8 +347,9 @@ def oracle (st : OSt) (op : Op) (v : View) (kind : String) (dropped : List Nat :
       | some t => if t.expired ≠ s.expired then some s!"C07 other-fabric-session: session {s.id} of fabric {s.fab} changed while fabric {removed} went away" else none
       | none => some s!"C07 other-fabric-session: session {s.id} of fabric {s.fab} disappeared while fabric {removed} went away")
   -- a session that is usable (not expired, not a handshake still in flight) while its fabric is gone
+  -- (also after a factory reset: since the repair of `C07-factory-reset-keeps-sessions` it drops them)
   let wiped : Bool := if restartLike op then false else (st.wiped || op == .freset)
-  let v07d := if wiped then [] else
+  let v07d :=
     (v.sess.filter (fun s => !s.expired && !s.reserved && s.fab ≠ 0 && !present s.fab)).map (fun s =>
       s!"C07 session-outlives-fabric: session {s.id} ({s.kind}{s.fab}, peer {s.peer}) is usable but fabric index {s.fab} is gone")
   -- 5. C08: the fail-safe context
@@ -471,19 +483,25 @@ def oracle (st : OSt) (op : Op) (v : View) (kind : String) (dropped : List Nat :
   let vx1 : List String :=
     if hasX && isExtWrite && xm secOf ≠ xm ("K" ++ secOf) then
       [s!"C11 acked-ext-not-stored: {kind} acknowledged, node has {secOf}[{xm secOf}] but a node restarted from the store would load [{xm ("K" ++ secOf)}]"]
-    else if hasX && okS && kind == "gkm" && !underFs && fabEntry (xm "K") opFab ≠ fabEntry (xm "KK") opFab then
-      [s!"C11 acked-ext-not-stored: group key map of fabric {opFab} is [{fabEntry (xm "K") opFab}] in memory but [{fabEntry (xm "KK") opFab}] in the store after an acknowledged write outside a fail-safe"]
+    else if hasX && okS && isWrite && !underFs then
+      -- an acknowledged fabric-scoped write outside a fail-safe has stored the fabric: everything that
+      -- lives in its blob (key map, group names, key sets) is in the store as the node has it
+      match fabSecs.find? (fun p => fabEntry (xm p.1) opFab ≠ fabEntry (xm p.2) opFab) with
+      | some p => [s!"C11 acked-ext-not-stored: {p.1} of fabric {opFab} is [{fabEntry (xm p.1) opFab}] in memory but [{fabEntry (xm p.2) opFab}] in the store after an acknowledged write ({kind}) outside a fail-safe"]
+      | none => []
     else []
   -- committed view of the extension
   let cx0 := st.cmtX
   let cx1 := if isExtWrite then setS cx0 secOf (xm secOf) else cx0
-  let cx2 := if okS && kind == "gkm" && !underFs then setS cx1 s!"K:{opFab}" (fabEntry (xm "K") opFab) else cx1
-  let cx3 := if isComplete && okS then setS cx2 s!"K:{opFab}" (fabEntry (xm "K") opFab) else cx2
+  let setFab (c : List (String × String)) : List (String × String) :=
+    fabSecs.foldl (fun c p => setS c s!"{p.1}:{opFab}" (fabEntry (xm p.1) opFab)) c
+  let cx2 := if hasX && okS && isWrite && !underFs then setFab cx1 else cx1
+  let cx3 := if hasX && isComplete && okS then setFab cx2 else cx2
   -- a fabric that goes away takes its bindings with it (`LifecycleOp::FabricRemoval`, stored at once)
   let cx4 := if removed.isEmpty || restartLike op then cx3 else
-    setS (cx3.filter (fun e => !(removed.any (fun i => e.1 == s!"K:{i}"))))
+    setS (cx3.filter (fun e => !(removed.any (fun i => fabSecs.any (fun p => e.1 == s!"{p.1}:{i}")))))
       "B" (";".intercalate ((items (getS cx3 "B" "")).filter (fun e => !removed.contains (entryFab e))))
-  let kOnly (l : List (String × String)) : List (String × String) := l.filter (fun e => e.1.startsWith "K:")
+  let kOnly (l : List (String × String)) : List (String × String) := l.filter (fun e => isFabKey e.1)
   -- the group key maps a restart may come up with: the committed ones; after `crash n` those of
   -- mutation `n` (inside the writes of one op: that op's as well)
   let (kWants, histX0) : List (List (String × String)) × List (Nat × List (String × String)) :=
@@ -515,10 +533,10 @@ def oracle (st : OSt) (op : Op) (v : View) (kind : String) (dropped : List Nat :
           let want0 := getS cx4 name (if name == "NL" then "-" else "")
           let want := if name == "B" then ";".intercalate ((items want0).filter (fun e => present (entryFab e))) else want0
           if xm name ≠ want then some s!"C11 restart-mismatch: after the restart {name}[{xm name}] but acknowledged [{want}]" else none)) ++
-        (v.fabs.filterMap (fun f =>
-          let wants := kWants.map (fun w => getS w s!"K:{f.idx}" "-")
-          if !wants.contains (fabEntry (xm "K") f.idx) then
-            some s!"C11 restart-mismatch: after the restart the group key map of fabric {f.idx} is [{fabEntry (xm "K") f.idx}] but committed {wants}"
+        ((v.fabs.flatMap (fun f => fabSecs.map (fun p => (f, p.1)))).filterMap (fun (f, sec) =>
+          let wants := kWants.map (fun w => getS w s!"{sec}:{f.idx}" "-")
+          if !wants.contains (fabEntry (xm sec) f.idx) then
+            some s!"C11 restart-mismatch: after the restart {sec} of fabric {f.idx} is [{fabEntry (xm sec) f.idx}] but committed {wants}"
           else none))
       | _ => []
   let cx5 := match op with
@@ -528,7 +546,8 @@ def oracle (st : OSt) (op : Op) (v : View) (kind : String) (dropped : List Nat :
         let c := setS cx4 "B" (";".intercalate ((items (getS cx4 "B" "")).filter (fun e => present (entryFab e))))
         -- after a crash the key maps that came up are the committed ones from here on
         match op with
-        | .crash _ => (c.filter (fun e => !e.1.startsWith "K:")) ++ v.fabs.map (fun f => (s!"K:{f.idx}", fabEntry (xm "K") f.idx))
+        | .crash _ => (c.filter (fun e => !isFabKey e.1)) ++
+            v.fabs.flatMap (fun f => fabSecs.map (fun p => (s!"{p.1}:{f.idx}", fabEntry (xm p.1) f.idx)))
         | _ => c
       else cx4
     | _ => cx4
@@ -536,10 +555,10 @@ def oracle (st : OSt) (op : Op) (v : View) (kind : String) (dropped : List Nat :
   -- C08: the deferred group key map is undone with the fail-safe
   let vx3 : List String :=
     if !hasX || !ended || restartLike op || isComplete then []
-    else v.fabs.filterMap (fun f =>
-      let want := getS cx5 s!"K:{f.idx}" "-"
-      if !dirty.contains f.idx && fabEntry (xm "K") f.idx ≠ want then
-        some s!"C08 rollback-mismatch: after the fail-safe ended without completion the group key map of fabric {f.idx} is [{fabEntry (xm "K") f.idx}] but committed [{want}]"
+    else (v.fabs.flatMap (fun f => fabSecs.map (fun p => (f, p.1)))).filterMap (fun (f, sec) =>
+      let want := getS cx5 s!"{sec}:{f.idx}" "-"
+      if !dirty.contains f.idx && fabEntry (xm sec) f.idx ≠ want then
+        some s!"C08 rollback-mismatch: after the fail-safe ended without completion {sec} of fabric {f.idx} is [{fabEntry (xm sec) f.idx}] but committed [{want}]"
       else none)
   -- C07: bindings / subscriptions of a fabric that is gone, or of another incarnation of the index
   let xents : List String := (items (xm "B")).map (fun e => "B " ++ e) ++ (items (xm "SUB")).map (fun e => "SUB " ++ e)
@@ -606,6 +625,11 @@ def step (st : St) (line : String) : St × String :=
         let dropped : List Nat := match ws with
           | "tick" :: _ :: rest => rest.filterMap (fun w => w.toNat?)
           | _ => []
+        -- handler level: AddGroup is refused (UnsupportedAccess) when the group key map of the fabric has
+        -- no entry for the group, KeySetWrite when the key set table is full - neither is in the model:
+        -- a refusal is followed (only the IM prologue ran), an acceptance must be the model's write
+        let kind := ws.headD ""
+        let op : Op := if st.hmode && v.status = "rej" && (kind == "addgrp" || kind == "ksw") then .ext ((isSessOp op).getD 0) else op
         let (node', status) : Node × Status :=
           match st.hmode, op with
           | true, .tick _ =>
